@@ -161,6 +161,9 @@ struct iauth_xquery_service {
     /** If non-zero, this service is (still) mentioned in the config file. */
     int configured;
 
+    /** Value of #configured before the configuration pass in progress. */
+    int was_configured;
+
     /** Total number of queries sent to this service. */
     unsigned int queries;
 
@@ -665,6 +668,13 @@ static void iauth_xquery_config_service(const char *name, const char *type)
             iauth_xquery_services.vec[ii] = srv;
         else
             iauth_xquery_services_append(&iauth_xquery_services, srv);
+    } else if (!srv->was_configured) {
+        /* A retired service that lingered because some client still
+         * awaits its answer is configured again.  For every client it
+         * must be the new service it would have been had nobody been
+         * waiting: what they noted about it before it went is void.
+         */
+        srv->epoch = ++iauth_xquery_epoch;
     }
 
     /* Look up the type of the service. */
@@ -701,8 +711,10 @@ static void iauth_xquery_services_changed(struct conf_node_base *node)
         /* Mark all services as unconfigured. */
         for (ii = 0; ii < iauth_xquery_services.used; ++ii) {
             srv = iauth_xquery_services.vec[ii];
-            if (srv != NULL)
+            if (srv != NULL) {
+                srv->was_configured = srv->configured;
                 srv->configured = 0;
+            }
         }
 
         /* Mark each named service as configured. */
